@@ -8,7 +8,7 @@
      m <Type>                                    names of the modelled zero-argument methods (the
                                                  harness answers with the reflected method set)
      types                                       names of the modelled view types *)
-From PV Require Export Base.Text Model.ViewsShow Spec.Views.
+From PV Require Export Base.Text Model.ViewsShow Spec.Views Spec.Views2.
 Open Scope string_scope.
 
 Record vtype := mkVT {
@@ -21,10 +21,29 @@ Record vtype := mkVT {
 
 Definition vtypes : list vtype :=
   [ mkVT "ARP" ARP_IsValid ARP_getters ARP_specs [] [];
+    mkVT "DHCP4" DHCP4_IsValid DHCP4_getters DHCP4_specs [] [];
+    mkVT "DNS" DNS_IsValid DNS_getters DNS_specs [] [];
     mkVT "Ether" Ether_IsValid Ether_getters Ether_specs Ether_findings Ether_findings;
+    mkVT "EthernetPause" Pause_IsValid Pause_getters Pause_specs [] [];
+    mkVT "HopByHopExtensionHeader" HBH_IsValid HBH_getters HBH_specs [] [];
+    mkVT "ICMP" ICMP_IsValid ICMP_getters ICMP_specs [] [];
+    mkVT "ICMP4Redirect" R4_IsValid R4_getters R4_specs [] R4_findings_C02;
+    mkVT "ICMP6NeighborAdvertisement" NA_IsValid NA_getters NA_specs [] [];
+    mkVT "ICMP6NeighborSolicitation" NS_IsValid NS_getters NS_specs [] [];
+    mkVT "ICMP6Redirect" Redirect6_IsValid Redirect6_getters Redirect6_specs [] [];
+    mkVT "ICMP6RouterAdvertisement" RA_IsValid RA_getters RA_specs [] [];
+    mkVT "ICMP6RouterSolicitation" RS_IsValid RS_getters RS_specs RS_findings_C01 RS_findings_C02;
+    mkVT "ICMPEcho" ICMPEcho_IsValid ICMPEcho_getters ICMPEcho_specs [] [];
+    mkVT "IEEE1905" IEEE1905_IsValid IEEE1905_getters IEEE1905_specs [] [];
     mkVT "IP4" IP4_IsValid IP4_getters IP4_specs IP4_findings_C01 IP4_findings_C02;
+    mkVT "IP6" IP6_IsValid IP6_getters IP6_specs [] [];
+    mkVT "LLC" LLC_IsValid LLC_getters LLC_specs LLC_findings_C01 LLC_findings_C02;
+    mkVT "LLDP" LLDP_IsValid LLDP_getters LLDP_specs LLDP_findings_C01 LLDP_findings_C02;
+    mkVT "RRCP" RRCP_IsValid RRCP_getters RRCP_specs [] [];
+    mkVT "SNAP" SNAP_IsValid SNAP_getters SNAP_specs [] [];
     mkVT "TCP" TCP_IsValid TCP_getters TCP_specs TCP_findings_C01 TCP_findings_C02;
-    mkVT "UDP" UDP_IsValid UDP_getters UDP_specs [] [] ].
+    mkVT "UDP" UDP_IsValid UDP_getters UDP_specs [] [];
+    mkVT "Unknown880a" U880a_IsValid U880a_getters U880a_specs [] [] ].
 
 Fixpoint find_vt (name : string) (l : list vtype) : option vtype :=
   match l with
@@ -64,8 +83,8 @@ Definition line02 (t : vtype) (name : string) (v : slice) : string :=
       let m := show_out show_value (g v) in
       if is_valid (vt_valid t v) then
         match lookup name (vt_specs t) with
-        | None => out3 m "-" "-"
-        | Some s =>
+        | None | Some None => out3 m "-" "-"
+        | Some (Some s) =>
             let e := show_value (s (view v)) in
             let key :=
               if String.eqb m e then "-" else
@@ -90,6 +109,6 @@ Definition dispatch (line : vtype -> string -> slice -> string) (l : string) : s
       | Some t => out3 (join "," (map fst (vt_getters t))) "-" "-"
       | None => BADARGS
       end
-  | ["types"] => out3 (join "," (map vt_name vtypes)) "-" "-"
+  | "types" :: _ => out3 (join "," (map vt_name vtypes)) "-" "-"
   | _ => BADARGS
   end.
